@@ -134,7 +134,8 @@ where
     // closing `@@` is context text and may well contain a `+<digits>` of its own.
     let lines_pattern = Regex::new(r"^@@.*?\+(\d+)(,(\d+))?").unwrap();
 
-    let file_filter = Regex::new(&format!("^{file_filter}$"))?;
+    // Group the user's expression: in `^a|b$` the anchors would bind to one alternative each.
+    let file_filter = Regex::new(&format!("^(?:{file_filter})$"))?;
 
     let mut current_file = None;
 
